@@ -165,6 +165,7 @@ class FnView:
         self._cw = None
         self._stop = None
         self._dw = None
+        self._only = None
 
     # -- CFG ---------------------------------------------------------------------------
     def succs(self, b):
@@ -477,6 +478,8 @@ class FnView:
         if 1 <= l <= self.argc:
             out.add(Origin("param", l, self.path, proj))
         for d in self.defs().get(l, []):
+            if self._only is not None and d[1] not in self._only:
+                continue
             if d[0] == "s":
                 if not self.def_reaches_killing(l, d[1], d[2], at, proj):
                     continue
@@ -702,6 +705,21 @@ class FnView:
             if roots & boxes:
                 out |= self._origins_rvalue(s["rv"], p2, taint, visiting, b, i, (b, i))
         return out
+
+    def restricted(self, blocks):
+        """Context manager: ignore definitions located outside `blocks` (path-sensitive provenance for one
+        configuration: pass the blocks reachable under that configuration)."""
+        view = self
+
+        class _Ctx:
+            def __enter__(self_):
+                self_.old = (view._only, view._origin_cache)
+                view._only = set(blocks)
+                view._origin_cache = {}
+
+            def __exit__(self_, *a):
+                view._only, view._origin_cache = self_.old
+        return _Ctx()
 
     def opaque(self, rx):
         """Context manager: treat calls matching rx as opaque origins (no look-through) inside the block."""
